@@ -439,7 +439,7 @@ func c08Tree(c *caseCtx) (res caseResult) {
 		select {
 		case <-tc.Done():
 		case <-time.After(wd):
-			res.violate("third-party Poison of node %d: context never became done although the whole subtree has stopped", third[i])
+			res.neverOrNotYet("third-party Poison of node %d: context did not become done although the whole subtree has stopped", third[i])
 		}
 	}
 	if top != 0 {
@@ -566,7 +566,7 @@ func c08Directed(c *caseCtx) (res caseResult) {
 			select {
 			case <-x.Done():
 			case <-time.After(wd):
-				res.violate("a stop context did not become done after the child's Stopped handler was released")
+				res.neverOrNotYet("a stop context did not become done after the child's Stopped handler was released")
 				return
 			}
 		}
